@@ -11,12 +11,22 @@ Oracle (exactly the statement): the fresh reader sees ndef None, or
 is_readable False, or length 0, or octets == old, or octets == new.  Anything
 else - in particular a non-zero length whose content is neither - is a
 violation; so is an exception out of the fresh reader.
+
+Part 'retry' (props/tagretry.py): the write is not the first thing that
+happens to the tag object.  Attempt 1 of `nd.octets = new` fails because the
+link is disturbed from the j-th command on (kind timeout / transmission /
+protocol, command lost or response lost); the application repeats the
+assignment on the SAME ndef object and the tag leaves the field after the k-th
+state-changing command of that retry, for every k.  Same oracle, with
+'previous message' = the message before attempt 1; a state that a single
+interrupted write old -> new leaves as well is judged by the part above only.
 """
 import time
 
 from mc.evidence import Run, sig_exc
 from mc import par
 from props import tagcases as tc
+from props import tagretry as tr
 
 PROP = 'C02'
 CASES = {}
@@ -28,6 +38,30 @@ NEW_T3 = (0, 1, 15, 16, 17, 33, 64, 80)
 OLD_T4 = (0, 1, 254, 255, 300)
 NEW_T4 = (0, 1, 11, 12, 25, 50, 254, 255, 256, 300, 'cap')
 CONTENTS = (('old', 'new'), ('tlv', 'ff'))
+KINDS = ('T1', 'T2', 'T3', 'T3emu', 'T4')
+
+# retry histories: (old lengths, new lengths) per tag family, content pair 0
+RETRY = {
+    'quick': dict(tlv=((0, 20, 300), (0, 1, 30, 254, 255, 260, 'cap')),
+                  t3=((0, 17, 80), (0, 1, 16, 17, 33, 80)),
+                  t4=((0, 12, 300), (0, 1, 12, 25, 50, 255, 300, 'cap'))),
+    'thorough': dict(tlv=(OLD_TLV, NEW_TLV + (30,)), t3=(OLD_T3, NEW_T3),
+                     t4=(OLD_T4, NEW_T4)),
+}
+# Type 2 Tags with two 1K sectors (SECTOR SELECT inside the write):
+# (data area size, NULL TLVs in front of the NDEF TLV, old lengths, new lengths)
+RETRY_2SECTOR = {
+    'quick': ((1016, 3, (20, 900), (700, 'cap')),
+              (2040, 3, (20, 1500), (1100, 'cap'))),
+    'thorough': ((1016, 0, (20, 900), (700, 'cap')),
+                 (1016, 1, (20, 900), (700, 'cap')),
+                 (1016, 2, (20, 900), (700, 'cap')),
+                 (1016, 3, (0, 20, 300, 900), (30, 300, 700, 'cap')),
+                 (2040, 0, (20, 1500), (1100, 'cap')),
+                 (2040, 1, (20, 1500), (1100, 'cap')),
+                 (2040, 2, (20, 1500), (1100, 'cap')),
+                 (2040, 3, (0, 20, 300, 1500), (30, 300, 1100, 1500, 'cap'))),
+}
 
 
 def layouts(tier):
@@ -60,6 +94,19 @@ def layouts(tier):
             for tech in techs:
                 out.append((tc.T4Case(mapping, 255, mlc, 310, 8 if tech == 'A' else 2,
                                       tech), OLD_T4, NEW_T4))
+    return out
+
+
+def retry_layouts(tier):
+    """(case, old lengths, new lengths) of the retry part: the layouts of
+    the cut part plus two-sector Type 2 Tags."""
+    out = []
+    g = RETRY[tier]
+    for case, _, _ in layouts(tier):
+        fam = {'T1': 'tlv', 'T2': 'tlv', 'T4': 't4'}.get(case.kind, 't3')
+        out.append((case, g[fam][0], g[fam][1]))
+    for D, nulls, olds, news in RETRY_2SECTOR[tier]:
+        out.append((tc.t2_case(D, 'generic', nulls, 'none', 2), olds, news))
     return out
 
 
@@ -167,8 +214,82 @@ def check(case, old_len, new_len, cid, only_k=None):
     return out, n, full[0]
 
 
+def check_retry(case, old_len, new_len, cid, tier, only=None):
+    """Retry histories of one (layout, old, new, content) -> (info,
+    [(CutResult, signature or None, detail or None)])"""
+    old, new = messages(cid, old_len, new_len)
+    info, results = tr.c02_retry(case, old, new, tier, observe, only=only)
+    out = []
+    for r in results:
+        sig = detail = None
+        if r.bad:
+            k, cls, octets = r.bad[0]
+            what = 'mixed-content' if cls == 'mixture' else cls
+            sig = '%s|retry-cut|%s|%s:%s|%s' % (
+                case.kind, pclass(case, old_len, new_len), r.name,
+                r.fault[2], what)
+            detail = dict(part='retry', spec=list(case.spec), case=case.name,
+                          old_len=old_len, new_len=new_len, content=cid,
+                          tier=tier, fault=list(r.fault), command=r.name, k=k,
+                          n2=r.n2, bad_cuts=[b[0] for b in r.bad][:20],
+                          seen_len=None if octets is None else len(octets),
+                          seen=None if octets is None else octets[:48],
+                          old=old[:24], new=new[:24],
+                          attempt1=repr(r.exc1), retry=repr(r.exc2))
+        out.append((r, sig, detail))
+    return info, out
+
+
+def work_retry(item):
+    _, ci, old_len, new_len, cid, tier = item
+    case, _, _ = CASES['retry'][ci]
+    run = Run(PROP)
+    t0 = time.process_time()
+    info, results = check_retry(case, old_len, new_len, cid, tier)
+    for r, sig, detail in results:
+        key = (case.name, 'retry', old_len, new_len, cid, r.fault)
+        if sig is None:
+            run.ok(key=key, n=len(r.classes))
+        else:
+            run.fail(sig, detail, key=key, deviations=2)
+            run.ok(n=len(r.classes) - 1)
+        for cls in r.classes:
+            c = cls.split('@')[0].split(':')[0]
+            run.count('retry:seen:' + c)
+            run.outcome((case.kind, 'retry', c))
+        run.count('retry:histories:' + case.kind)
+        run.count('retry:cut-points:' + case.kind, len(r.classes))
+        run.count('retry:attempt1:' + tr.exc_class(r.exc1))
+        run.count('retry:second-attempt:' + tr.exc_class(r.exc2))
+        run.count('retry:fault:%s:%s' % (r.fault[1], r.fault[2]))
+    run.count('retry:writes:' + case.kind)
+    run.count('retry:distinct-memory-images-read-by-a-fresh-reader',
+              info['images'])
+    run.count('retry:cuts-replayed-for-real', info['cross'])
+    run.count('retry:exempt:timeout-where-the-tag-answers-with-silence',
+              info['exempt'])
+    if info['thinned']:
+        run.count('retry:writes-with-thinned-positions')
+    if info.get('unsafe'):
+        run.count('retry:writes-unsafe-under-a-single-cut(not-judged-again)')
+    if info['complete'] != 'completed':
+        run.count('retry:complete-write-raises:' + info['complete'])
+    run.count('cpu_ms', int((time.process_time() - t0) * 1000))
+    if results:
+        r = results[len(results) // 2][0]
+        run.sample(dict(part='retry', case=case.name, old_len=old_len,
+                        new_len=new_len, commands_of_write=info['n'],
+                        fault=list(r.fault), faulted_command=r.name,
+                        attempt1=tr.exc_class(r.exc1),
+                        second_attempt=tr.exc_class(r.exc2),
+                        seen_per_cut_of_retry=r.classes[:40]))
+    return run.export()
+
+
 def work(item):
-    ci, old_len, new_len, cid = item
+    if item[0] == 'retry':
+        return work_retry(item)
+    _, ci, old_len, new_len, cid = item
     case, _, _ = CASES['list'][ci]
     run = Run(PROP)
     t0 = time.process_time()
@@ -194,42 +315,87 @@ def work(item):
 
 def main(tier='quick', seed=0, part=None):
     run = Run(PROP, tier, seed, level='fault_enumeration')
-    lays = layouts(tier)
-    if part:
-        lays = [x for x in lays if x[0].kind in part.split(',')]
+    tokens = set(part.split(',')) if part else set()
+    kinds = (tokens & set(KINDS)) or set(KINDS)
+    parts = (tokens & {'cut', 'retry'}) or {'cut', 'retry'}
+    lays = [x for x in layouts(tier) if x[0].kind in kinds]
     CASES['list'] = lays
     items = []
-    for ci, (case, olds, news) in enumerate(lays):
-        o, n = expand(case, olds, news)
-        for a in o:
-            for b in n:
-                for cid in range(len(CONTENTS)):
-                    items.append((ci, a, b, cid))
+    if 'cut' in parts:
+        for ci, (case, olds, news) in enumerate(lays):
+            o, n = expand(case, olds, news)
+            for a in o:
+                for b in n:
+                    for cid in range(len(CONTENTS)):
+                        items.append(('cut', ci, a, b, cid))
+    n_cut = len(items)
+    rlays = [x for x in retry_layouts(tier) if x[0].kind in kinds]
+    CASES['retry'] = rlays
+    if 'retry' in parts:
+        for ci, (case, olds, news) in enumerate(rlays):
+            o, n = expand(case, olds, news)
+            for a in o:
+                for b in n:
+                    items.append(('retry', ci, a, b, 0, tier))
     for res in par.pmap(work, par.shuffled(items, seed), chunksize=2):
         run.merge(res)
     run.rule = ("one case = (layout, old length, new length, content pair, cut "
                 "point k); k ranges over 0..n where n is the number of "
                 "state-changing commands the simulator executed in the "
                 "fault-free write; cases with k>0 (at least one command "
-                "executed before the cut) count as non-trivial")
+                "executed before the cut) count as non-trivial.  Part 'retry': "
+                "one history = (layout, old length, new length, faulted "
+                "position j of the command sequence of the fault-free write, "
+                "error kind timeout/transmission/protocol, command lost / "
+                "response lost): attempt 1 of `ndef.octets = new` runs with "
+                "every exchange from the j-th on failing (a burst beyond every "
+                "retry budget), then the assignment is repeated on the same "
+                "ndef object and cut after the k-th state-changing command for "
+                "every k = 0..n2; j = every position for sequences up to %d "
+                "commands, else first, second, middle, last, every SECTOR "
+                "SELECT packet and the first/last occurrence of every command "
+                "name%s; every (history, k) is one evaluation, distinct "
+                "histories are counted as non-trivial cases; the tag memory "
+                "after each cut is recorded in one execution of the retry and "
+                "read by a fresh reader once per distinct memory image "
+                "(counters retry:*), one cut per history is replayed for real "
+                "and must agree" % (
+                    tr.SMALL[tier], ' (+ third, last but one, quartiles, both '
+                    'sides of every command name change)'
+                    if tier == 'thorough' else ''))
     run.assumptions += [
         "a cut happens between commands: a command is either executed "
         "completely by the tag or not at all (no torn page writes)",
         "after the cut every command times out until the tag is brought back "
         "into the field (sim.enter_field)",
         "simulators sim/t?t.py are the trusted base",
+        "retry part: the disturbance of attempt 1 lasts until that attempt "
+        "returns; a timeout where the tag answers with silence anyway (second "
+        "SECTOR SELECT packet) is not a fault; a write whose single "
+        "interruption already leaves a mixture (reported by the cut part) is "
+        "not judged again under retry",
     ]
-    by_kind = {}
+    by_kind, rby_kind = {}, {}
     for c, _, _ in lays:
         by_kind[c.kind] = by_kind.get(c.kind, 0) + 1
+    for c, _, _ in rlays:
+        rby_kind[c.kind] = rby_kind.get(c.kind, 0) + 1
     run.extra['bounds'] = dict(
-        layouts=by_kind, writes=len(items),
+        layouts=by_kind, writes=n_cut,
         t12=dict(old=OLD_TLV, new=NEW_TLV, align='T2 offset 0..3 mod 4; T1 '
                  'dynamic offset 0..7 mod 8'),
         t3=dict(old=OLD_T3, new=NEW_T3, nbw='1..4', nmaxb=5),
         t4=dict(old=OLD_T4, new=NEW_T4, mlc=[1, 2, 4, 13, 52, 255, 256],
                 mapping=['2.0', '3.0'], mfs=310),
         contents=[list(c) for c in CONTENTS], part=part,
+        retry=dict(layouts=rby_kind, writes=len(items) - n_cut,
+                   lengths={k: dict(old=v[0], new=v[1])
+                            for k, v in RETRY[tier].items()},
+                   two_sector_type2=[dict(data_area=D, nulls=nulls, old=o,
+                                          new=n)
+                                     for D, nulls, o, n in RETRY_2SECTOR[tier]],
+                   kinds=list(tr.KINDS), variants=list(tr.VARIANTS),
+                   all_positions_up_to=tr.SMALL[tier], content_pair=0),
         not_covered='FeliCa Lite-S write_with_mac path')
     return run.finish(exhaustive=(part is None))
 
@@ -237,6 +403,23 @@ def main(tier='quick', seed=0, part=None):
 def replay(doc):
     d = doc['detail']
     case = tc.from_spec(d['spec'])
+    if d.get('part') == 'retry':
+        info, results = check_retry(case, d['old_len'], d['new_len'],
+                                    d['content'], d.get('tier', 'quick'),
+                                    only=(tuple(d['fault']), d['k']))
+        rc = 0
+        for r, sig, detail in results:
+            print('attempt 1 disturbed from command %d (%s) on, %s, %s: %s; '
+                  'retry on the same ndef object cut after %d of %d '
+                  'state-changing commands (%s): fresh reader sees %s' % (
+                      r.fault[0], r.name, r.fault[1], r.fault[2],
+                      tr.exc_class(r.exc1), d['k'], r.n2,
+                      tr.exc_class(r.exc2), r.classes[0]))
+            if sig:
+                print('VIOLATION %s' % sig)
+                print('  %r' % (detail,))
+                rc = 1
+        return rc
     results, n, full = check(case, d['old_len'], d['new_len'], d['content'],
                              only_k=d['k'])
     rc = 0
